@@ -6,6 +6,7 @@ import (
 	"io"
 	"os"
 	"sync"
+	"strings"
 	"sync/atomic"
 	"time"
 
@@ -151,12 +152,34 @@ func vfNewAgent(eids ...bpv7.EndpointID) *vfAgent {
 				default:
 				}
 			}
+			if f, ok := m.(vfFlushMsg); ok {
+				close(f.done)
+			}
 			if _, ok := m.(agent.ShutdownMessage); ok {
 				return
 			}
 		}
 	}()
 	return a
+}
+
+// vfFlushMsg is sent by the harness straight into a mock agent's channel: the agent works through its
+// messages one after the other, so once it has answered, everything handed to it before is recorded.
+type vfFlushMsg struct{ done chan struct{} }
+
+func (vfFlushMsg) Recipients() []bpv7.EndpointID { return nil }
+
+// flush waits until the agent has recorded everything that was handed to it so far.
+func (a *vfAgent) flush() {
+	f := vfFlushMsg{done: make(chan struct{})}
+	select {
+	case a.receiver <- f:
+		select {
+		case <-f.done:
+		case <-time.After(20 * time.Second):
+		}
+	case <-time.After(20 * time.Second):
+	}
 }
 func (a *vfAgent) Endpoints() []bpv7.EndpointID       { return a.eids }
 func (a *vfAgent) MessageReceiver() chan agent.Message { return a.receiver }
@@ -330,6 +353,8 @@ func (s *vfSim) barrier(via *vfPeer) {
 	for {
 		for _, b := range s.marker.received() {
 			if pb, err := b.PayloadBlock(); err == nil && string(pb.Value.(*bpv7.PayloadBlock).Data()) == want {
+				// everything handed to the application agent before the marker is recorded once it answers
+				s.app.flush()
 				return
 			}
 		}
@@ -559,3 +584,76 @@ func vfProphetMetadata(src, dst string, preds map[string]float64, seq uint64) bp
 }
 
 func sleepMs(n int) { time.Sleep(time.Duration(n) * time.Millisecond) }
+
+
+// vfPingProxy wraps the real PingAgent and counts what goes in and what has been handed back, so
+// that the harness can tell when the agent owes nothing any more.
+type vfPingProxy struct {
+	inner    *agent.PingAgent
+	receiver chan agent.Message
+	sender   chan agent.Message
+	in, out  int32
+	seen     int // pongs of an earlier generation of the node (not used: a proxy lives in one generation)
+}
+
+func newVfPingProxy(eid bpv7.EndpointID) *vfPingProxy {
+	p := &vfPingProxy{inner: agent.NewPing(eid), receiver: make(chan agent.Message), sender: make(chan agent.Message)}
+	go func() {
+		for m := range p.receiver {
+			if _, ok := m.(agent.BundleMessage); ok {
+				atomic.AddInt32(&p.in, 1)
+			}
+			p.inner.MessageReceiver() <- m
+			if _, ok := m.(agent.ShutdownMessage); ok {
+				return
+			}
+		}
+	}()
+	go func() {
+		defer close(p.sender)
+		for m := range p.inner.MessageSender() {
+			p.sender <- m
+			if _, ok := m.(agent.BundleMessage); ok {
+				atomic.AddInt32(&p.out, 1)
+			}
+		}
+	}()
+	return p
+}
+func (p *vfPingProxy) Endpoints() []bpv7.EndpointID         { return p.inner.Endpoints() }
+func (p *vfPingProxy) MessageReceiver() chan agent.Message { return p.receiver }
+func (p *vfPingProxy) MessageSender() chan agent.Message   { return p.sender }
+
+
+// quiescePing waits until every pong the ping agent owes has been taken over by the node: handed back by
+// the agent and visible in the store or in a peer's log.
+func (s *vfSim) quiescePing(ping *vfPingProxy) {
+	if ping == nil {
+		return
+	}
+	prefix := ping.inner.Endpoints()[0].String() + "-"
+	deadline := time.Now().Add(5 * time.Second)
+	for atomic.LoadInt32(&ping.out) < atomic.LoadInt32(&ping.in) && time.Now().Before(deadline) {
+		time.Sleep(100 * time.Microsecond)
+	}
+	want := int(atomic.LoadInt32(&ping.out)) - ping.seen
+	for time.Now().Before(deadline) {
+		ids := map[string]bool{}
+		for _, x := range s.sendsSince(0) {
+			if x.Gen == s.gen && strings.HasPrefix(x.ID, prefix) {
+				ids[x.ID] = true
+			}
+		}
+		if bis, err := s.core.store.QueryPending(); err == nil {
+			for _, bi := range bis {
+				if strings.HasPrefix(bi.BId.String(), prefix) {
+					ids[bi.BId.String()] = true
+				}
+			}
+		}
+		if len(ids) >= want {
+			return
+		}
+		time.Sleep(200 * time.Microsecond)
+	}
+}
